@@ -102,6 +102,25 @@ def _per_call_reading(ctx: Context, prop: str, repo: Repo) -> None:
         memo = [d for d in fi.decorators()
                 if d.split(".")[-1] in ("lru_cache", "cache", "cached_property")
                 or "memo" in d.lower()]
+        if not memo and not isinstance(fi.node, ast.Lambda):
+            # a hand-written memo: the function keeps entries in a module-level container
+            glob = set(getattr(fi.module, "assigns", {}) or {})
+            local = {a.arg for a in ast.walk(fi.node.args) if isinstance(a, ast.arg)}
+            for nd in ast.walk(fi.node):
+                tgt = None
+                if isinstance(nd, (ast.Assign, ast.AugAssign, ast.AnnAssign)):
+                    for t in (nd.targets if isinstance(nd, ast.Assign) else [nd.target]):
+                        if isinstance(t, ast.Subscript) and isinstance(t.value, ast.Name):
+                            tgt = t.value.id
+                elif (isinstance(nd, ast.Call) and isinstance(nd.func, ast.Attribute)
+                      and nd.func.attr in ("setdefault", "update", "append", "add")
+                      and isinstance(nd.func.value, ast.Name)):
+                    tgt = nd.func.value.id
+                if tgt and tgt in glob and tgt not in local and not any(
+                        isinstance(x, ast.Name) and x.id == tgt and isinstance(x.ctx, ast.Store)
+                        for x in ast.walk(fi.node)):
+                    memo = [f"module-level table `{tgt}`"]
+                    break
         if not memo:
             continue
         ret = getattr(fi.node, "returns", None)
